@@ -102,11 +102,15 @@ static unsigned rnd (void)
 static void jitter (void)
 {
     unsigned r;
+    int old;
     if (!perturb) return;
+    /* usleep is a cancellation point; the delays must not add cancellation points to work.c */
+    pthread_setcancelstate (PTHREAD_CANCEL_DISABLE, &old);
     r = rnd () % 100;
     if (perturb == 1) { if (r < 10) sched_yield (); }
     else if (perturb == 2) { if (r < 25) sched_yield (); else if (r < 35) usleep (rnd () % 60); }
     else { if (r < 30) sched_yield (); else if (r < 60) usleep (rnd () % 300); }
+    pthread_setcancelstate (old, NULL);
 }
 
 static int pending_items (void)
